@@ -8,8 +8,17 @@
 (*        the real parser and Director; filter_error was asked about a synthetic error for    *)
 (*        every (name, line, return-opcode?).  The spec's pipeline Parse/Process/Finish is    *)
 (*        advanced on the same file record; the verdict is the declarative meaning.           *)
+(*        Then the errors C.lq = [name, op, xl, ret] were raised through the real             *)
+(*        ErrorLog.error (a stack whose top opcode sits on line op, `line=xl`) with the       *)
+(*        Director's filter installed; C.lobs = [logged?, final line of the error object].    *)
+(*        The spec raises the same errors with its actions ErrCreate / ErrLine /              *)
+(*        ErrFilterAdd; verdict: logged iff the ASKED line carries no directive for it.       *)
+(*  "tables" the two error-class tables of directors.py as imported from the code; verdict:   *)
+(*        they are the pinned tables of DirectivesOps.                                        *)
 (*  "e2e" ring 3: pytype analysed a program before and after a directive was written for one  *)
-(*        reported error; the verdict is the property as worded.                              *)
+(*        reported error; the verdict is the property as worded.  The attribution of a        *)
+(*        failing clause to the known finding "a directive on a continuation line is also     *)
+(*        registered on the first line" is computed here from the PINNED table.               *)
 (* Verdicts are total: BAD lines name every failing clause; DIV lines report differences      *)
 (* between the operational model and the code that are not verdicts; OBS lines report cases   *)
 (* in which the documented exception (strict # documented reading) is observable.             *)
@@ -24,17 +33,17 @@ C == Cases[i]
 
 Reset ==
   /\ file' = NoFile /\ phase' = "idle" /\ items' = <<>> /\ pc' = 0 /\ st' = St0(NoFile)
-  /\ late' = {} /\ one' = LsEmpty /\ hist' = <<>>
+  /\ late' = {} /\ one' = LsEmpty /\ hist' = <<>> /\ elog' = ELog0
 
 TInit ==
   /\ i = 1 /\ k = 0 /\ TLCSet(1, FALSE)
   /\ file = NoFile /\ phase = "idle" /\ items = <<>> /\ pc = 0 /\ st = St0(NoFile)
-  /\ late = {} /\ one = LsEmpty /\ hist = <<>>
+  /\ late = {} /\ one = LsEmpty /\ hist = <<>> /\ elog = ELog0
 
 (* ring 1 *)
 LsBegin ==
   /\ C.kind = "ls" /\ phase = "idle" /\ phase' = "ls" /\ k' = 0 /\ i' = i
-  /\ UNCHANGED <<file, items, pc, st, late, one, hist>>
+  /\ UNCHANGED <<file, items, pc, st, late, one, hist, elog>>
 LsStep ==
   /\ C.kind = "ls" /\ phase = "ls" /\ k < Len(C.ops)
   /\ LET o == C.ops[k + 1] IN LsOp(o.op, o.l, o.m)
@@ -45,21 +54,28 @@ LsEnd == C.kind = "ls" /\ phase = "ls" /\ k = Len(C.ops)
 Load ==
   /\ C.kind = "dir" /\ phase = "idle"
   /\ file' = FileOfJson(C.f) /\ phase' = "build" /\ k' = 0 /\ i' = i
-  /\ UNCHANGED <<items, pc, st, late, one, hist>>
+  /\ UNCHANGED <<items, pc, st, late, one, hist, elog>>
 DirStep ==
   /\ C.kind = "dir" /\ phase \in {"build", "run"}
   /\ (Parse \/ Process \/ Finish)
   /\ k' = k + 1 /\ i' = i
-DirEnd == C.kind = "dir" /\ phase = "done"
+(* the recorded raises, one after the other, through the spec's ErrorLog actions *)
+UOf(x) == [name |-> C.lq[x][1], op |-> C.lq[x][2], xl |-> C.lq[x][3], ret |-> C.lq[x][4]]
+LogStep ==
+  /\ C.kind = "dir" /\ phase \in {"done", "err-new", "err-lined"}
+  /\ \/ (elog.n < Len(C.lq) /\ ErrCreate(UOf(elog.n + 1)))
+     \/ ErrLine \/ ErrFilterAdd
+  /\ k' = k + 1 /\ i' = i
+DirEnd == C.kind = "dir" /\ phase = "done" /\ elog.n = Len(C.lq)
 
-E2E == C.kind = "e2e" /\ phase = "idle"
+E2E == C.kind \in {"e2e", "tables"} /\ phase = "idle"
 
 NextCase ==
   /\ (LsEnd \/ DirEnd \/ E2E)
   /\ i' = i + 1 /\ k' = 0 /\ Reset
   /\ (i' > Len(Cases) => TLCSet(1, TRUE))
 
-TNext == i <= Len(Cases) /\ (LsBegin \/ LsStep \/ Load \/ DirStep \/ NextCase)
+TNext == i <= Len(Cases) /\ (LsBegin \/ LsStep \/ Load \/ DirStep \/ LogStep \/ NextCase)
 
 -----------------------------------------------------------------------------
 (* ring 1 verdict: on histories that respect the documented precondition the real object's    *)
@@ -102,6 +118,28 @@ DirVerdict ==
    (* queries whose verdict differs between the strict and the documented reading *)
    obs |-> Cardinality({y \in Q : D[y] # S[y]})]
 
+(* raised errors: the outcome of the last completed ErrorLog.error call (spec: elog.res,      *)
+(* produced by the spec's own actions; code: C.lobs[elog.n]).  The verdict is declarative:    *)
+(* the error is logged iff the line it is reported at carries no directive for it.            *)
+LogVerdict ==
+  LET x == elog.n
+      u == elog.u
+      ob == [line |-> C.lobs[x][2], rep |-> C.lobs[x][1]]
+      D == DeclLog(file, items, u, TRUE) IN
+  [fails |->
+     (IF ~ob.rep /\ D.rep THEN {<<"log-over", x>>} ELSE {})
+     \cup (IF ob.rep /\ ~D.rep THEN {<<"log-under", x>>} ELSE {})
+     \cup (IF ob.line # D.line THEN {<<"log-line", x>>} ELSE {}),
+   divs |-> IF elog.res # ob THEN {<<"model-log", x>>} ELSE {}]
+
+(* the tables of the code are the pinned ones *)
+TabDiff(a, b) == (a \ b) \cup (b \ a)
+TablesFails ==
+  (IF ToSet(C.fc) # PinnedFuncCallErrs
+     THEN {<<"function-call-errors", TabDiff(ToSet(C.fc), PinnedFuncCallErrs)>>} ELSE {})
+  \cup (IF ToSet(C.adj) # PinnedAdjustErrs
+     THEN {<<"adjustable-errors", TabDiff(ToSet(C.adj), PinnedAdjustErrs)>>} ELSE {})
+
 -----------------------------------------------------------------------------
 (* ring 3 verdict: the property as worded.  Errors are <<name, line, message, traceback>>     *)
 (* (traceback = sequence of <<line, function>>); c.ins = the                                  *)
@@ -112,6 +150,9 @@ DirVerdict ==
 (*   pair    : stand-alone disable before / enable after L   -> exactly (E, L)                 *)
 (*   open    : stand-alone disable before L, no enable       -> exactly (E, l), l >= L, and a  *)
 (*             late-directive warning iff a definition precedes (docs/errors.md)              *)
+(*   opline  : `# pytype: disable=E` appended to line P # L, the line of the opcode that      *)
+(*             DETECTED a relocated error (E, L)              -> (E, L) stays; exactly the     *)
+(*             errors (E, P) disappear (c.line = P)                                           *)
 OldLine(l, ins) == l - Cardinality({x \in ins : x < l})
 E2EFails ==
   LET c == C
@@ -121,7 +162,7 @@ E2EFails ==
       A == {<<e[1], OldLine(e[2], ins), e[3], Tb(e[4], TRUE)>> :
               e \in {x \in ToSet(c.after) : x[2] \notin ins}}
       D == {<<e[1], e[2]>> : e \in {x \in ToSet(c.after) : x[2] \in ins}}
-      Removed == CASE c.place = "disable" -> {e \in B : e[1] = c.name /\ e[2] = c.line}
+      Removed == CASE c.place \in {"disable", "opline"} -> {e \in B : e[1] = c.name /\ e[2] = c.line}
                    [] c.place = "ignore" -> {e \in B : e[2] = c.line}
                    [] c.place = "pair" -> {e \in B : e[1] = c.name /\ e[2] = c.line}
                    [] c.place = "open" -> {e \in B : e[1] = c.name /\ e[2] >= c.line}
@@ -134,19 +175,38 @@ E2EFails ==
   \cup (IF D # ExpD THEN {<<"directive-error", (D \ ExpD) \cup (ExpD \ D)>>} ELSE {})
   \cup (IF c.pyi0 # c.pyi1 THEN {<<"pyi", {}>>} ELSE {})
 
+(* Attribution to the known finding C03:continuation-line-directive-also-silences-start-line: *)
+(* a trailing `# type: ignore`, or a trailing disable for a class that is adjustable AT THE   *)
+(* PINNED COMMIT, on a continuation line; every error that went missing has that class (any   *)
+(* class for `type: ignore`) and sits on the first line of a construct around the directive   *)
+(* (c.starts).  Classes outside the pinned table are never attributed.                        *)
+E2EAttr(fails) ==
+  LET c == C
+      st0 == ToSet(c.starts) IN
+  {f[1] : f \in {g \in fails :
+     /\ g[1] = "lost" /\ c.place \in {"disable", "ignore", "opline"}
+     /\ (c.place = "ignore" \/ c.name \in PinnedAdjustErrs)
+     /\ \A x \in g[2] : /\ x[2] \in st0 /\ x[2] < c.line
+                         /\ (c.place = "ignore" \/ x[1] = c.name)}}
+
 -----------------------------------------------------------------------------
 IsLs == i <= Len(Cases) /\ C.kind = "ls" /\ phase = "ls" /\ k >= 1
-IsDir == i <= Len(Cases) /\ C.kind = "dir" /\ phase = "done"
+IsDir == i <= Len(Cases) /\ C.kind = "dir" /\ phase = "done" /\ elog.n = 0
+IsLog == i <= Len(Cases) /\ C.kind = "dir" /\ phase = "done" /\ elog.n > 0
 IsE2E == i <= Len(Cases) /\ C.kind = "e2e" /\ phase = "idle"
+IsTab == i <= Len(Cases) /\ C.kind = "tables" /\ phase = "idle"
 Bad(f) == f = {} \/ PrintT(<<"BAD", ToJson([i |-> i, k |-> k, fails |-> f])>>)
 Div(d) == d = {} \/ PrintT(<<"DIV", ToJson([i |-> i, k |-> k, divs |-> d])>>)
+BadA(f, a) == f = {} \/ PrintT(<<"BAD", ToJson([i |-> i, k |-> k, fails |-> f, start |-> a])>>)
 
 Ok ==
   /\ IsLs => Bad(LsFails) /\ Div(LsDivs)
   /\ IsDir => LET v == DirVerdict IN
               /\ Bad(v.fails) /\ Div(v.divs)
               /\ v.obs = 0 \/ PrintT(<<"OBS", ToJson([i |-> i, n |-> v.obs])>>)
-  /\ IsE2E => Bad(E2EFails)
+  /\ IsLog => LET v == LogVerdict IN Bad(v.fails) /\ Div(v.divs)
+  /\ IsE2E => LET f == E2EFails IN BadA(f, E2EAttr(f))
+  /\ IsTab => Bad(TablesFails)
 
 Done == TLCGet(1)
 =============================================================================
